@@ -236,7 +236,7 @@ CASES = [
          new="    @property\n    def is_unary(self) -> bool:\n        return not (self.client_streaming or self.server_streaming)\n\n    @property\n    def grpc_stub_type(self) -> str:"),
     dict(id="twin-with-block-around-call", prop="*", kind="twin", file=S + "_client_macros.j2",
          old="        rpc = self._transport._wrapped_methods[self._transport.{{ method.transport_safe_name|snake_case}}]",
-         new="        {% with m = method %}rpc = self._transport._wrapped_methods[self._transport.{{ m.transport_safe_name|snake_case}}]{% endwith %}\n"),
+         new="        {% with m = method %}\n        rpc = self._transport._wrapped_methods[self._transport.{{ m.transport_safe_name|snake_case}}]\n        {% endwith %}"),
     dict(id="twin-python-rename-local-retry", prop="*", kind="twin", file="schema/api.py",
          old="""            mc = next(
                 (
@@ -279,4 +279,28 @@ CASES = [
     dict(id="twin-reorder-independent-python-statements", prop="*", kind="twin", file="schema/wrappers.py",
          old="        retry = None\n        timeout = None\n" if False else "        pb_type = page_field_size.type\n",
          new="        pb_type = page_field_size.type  # the declared type\n"),
+    # ---------------- rules added after seeding round 2
+    dict(id="c07-loader-reverses-fields", prop="C07", kind="mutant", also=["C02"], file="schema/api.py",
+         old="        for i, field_pb in enumerate(field_pbs):", new="        for i, field_pb in reversed(list(enumerate(field_pbs))):"),
+    dict(id="c10-last-wins-short-type", prop="C10", kind="mutant", file="schema/wrappers.py",
+         old="            r.resource_type_full_path: r for r in self.resource_messages\n", new="            r.resource_type: r for r in self.resource_messages\n"),
+    dict(id="c12-camel-split-misses-underscore", prop="C12", kind="mutant", file="utils/case.py",
+         old='items = re.split(r"[_-]", to_snake_case(s))', new='items = re.split(r"[-]|_(?=.)", to_snake_case(s))'),
+    dict(id="c12-names-map-per-message", prop="C12", kind="mutant", file="schema/api.py",
+         old="        modules: Dict[str, Set[str]] = collections.defaultdict(set)\n        for m in self.all_messages.values():\n            for t in m.recursive_field_types:",
+         new="        for m in self.all_messages.values():\n            modules: Dict[str, Set[str]] = collections.defaultdict(set)\n            for t in m.recursive_field_types:"),
+    dict(id="c20-wrap-colon-sub-three-newlines", prop="C20", kind="mutant", file="utils/lines.py",
+         old='text = re.sub(r":\\n([^\\n])", r":\\n\\n\\1", text)', new='text = re.sub(r":\\n([^\\n])", r":\\n\\n\\n\\1", text)'),
+    dict(id="c14-lint-unused-comprehension-var", prop="C14", kind="mutant", file="samplegen/samplegen.py",
+         old="witness = any(e.name in val for e in attr.enum.values)", new="witness = any(attr.name in val for e in attr.enum.values)"),
+    dict(id="twin-lint-legit-search-loop", prop="*", kind="twin", file="samplegen/samplegen.py",
+         old="def _supports_grpc(service) -> bool:",
+         new="def _longest(entries):\n    best = None\n    for e in entries:\n        parts = []\n        for p in e.split(\".\"):\n            parts.append(p)\n"
+             "        if best is None or len(parts) > len(best):\n            best = parts\n    return best\n\n\ndef _supports_grpc(service) -> bool:"),
+    dict(id="twin-proto-names-rename-locals", prop="*", kind="twin", file="schema/api.py",
+         old="        modules: Dict[str, Set[str]] = collections.defaultdict(set)\n        for m in self.all_messages.values():\n            for t in m.recursive_field_types:\n                modules[t.ident.module].add(t.ident.package)\n\n        answer.update(\n            module_name\n            for module_name, packages in modules.items()",
+         new="        pkgs_of: Dict[str, Set[str]] = collections.defaultdict(set)\n        for msg in self.all_messages.values():\n            for ftype in msg.recursive_field_types:\n                pkgs_of[ftype.ident.module].add(ftype.ident.package)\n\n        answer.update(\n            module_name\n            for module_name, packages in pkgs_of.items()"),
+    dict(id="twin-camel-case-rename-local", prop="*", kind="twin", file="utils/case.py",
+         old='    items = re.split(r"[_-]", to_snake_case(s))\n    return items[0].lower() + "".join(x.capitalize() for x in items[1:])',
+         new='    words = re.split(r"[_-]", to_snake_case(s))\n    return words[0].lower() + "".join(w.capitalize() for w in words[1:])'),
 ]
